@@ -1,4 +1,4 @@
 From Coq Require Import Extraction ExtrOcamlBasic.
 From Cicada Require Import Model.Complete Model.Tokenizer Model.Redirect Model.Cmds.
 Extraction "c20_model.ml" escape_path wrap_sep_string escaped_word_start split_bytes byte_len needs_expand_home
-  split_pathname complete_path tab_line run_line literal_token parse_line line_to_cmds plan_tokens for_cd.
+  split_pathname complete_path tab_line run_line literal_token parse_line line_to_cmds plan_tokens for_cd dispatch.
